@@ -215,6 +215,7 @@ private:
   void compact_level(unsigned height);
 
   static void check_k(uint16_t k);
+  static void check_num_retained(uint32_t num_retained);
   static void check_level_size(uint32_t level_size, int64_t num_to_read);
   static void check_serial_version(uint8_t serial_version);
   static void check_family_id(uint8_t family_id);
